@@ -7,6 +7,7 @@ package main
 // Int term carries a conservative interval so that most wraps are elided.
 
 import (
+	"runtime/debug"
 	"fmt"
 	"math/big"
 	"strconv"
@@ -432,6 +433,17 @@ func tLe(a, b *Term) *Term { return tCmp("<=", a, b) }
 func tGt(a, b *Term) *Term { return tCmp(">", a, b) }
 func tGe(a, b *Term) *Term { return tCmp(">=", a, b) }
 func tEq(a, b *Term) *Term {
+	if a.sort != b.sort {
+		panic(engineError{"internal: tEq on different sorts\n" + string(debug.Stack())})
+	}
+	if a != b && !a.isConst() && !b.isConst() && a.sort != SFP {
+		// structurally identical terms are equal (floats excluded: NaN != NaN)
+		a1, a2 := a.hash()
+		b1, b2 := b.hash()
+		if a1 == b1 && a2 == b2 {
+			return trueT
+		}
+	}
 	if a.sort == SBool {
 		if a.isConst() {
 			if a.bval {
